@@ -78,8 +78,13 @@ class Roles:
         m["loader"] = first([b for b in melda if b.local_ty(0).startswith("std::result::Result<melda::Delta,")])
         if m["raw_read"] is not None:
             rr = m["raw_read"].path
-            m["fetcher"] = first([b for b in melda if not b.public and self._calls(b, lambda c, t, x: c.target() == rr) and
-                                  self._calls(b, lambda c, t, x: c.target() == "utils::digest_bytes")])
+            def verifies(b):
+                """hashes what it read: itself or in a private helper it hands the bytes to (`decode_raw_delta(&bytes, digest)`)"""
+                if self._calls(b, lambda c, t, x: c.target() == "utils::digest_bytes"):
+                    return True
+                from .common import members_of
+                return any(t.callee is not None and t.callee.target() == "utils::digest_bytes" for mb in members_of(f, b, 1) for _, t in mb.calls())
+            m["fetcher"] = first([b for b in melda if not b.public and self._calls(b, lambda c, t, x: c.target() == rr) and verifies(b)])
         else:
             m["fetcher"] = None
         m["merger"] = first([b for b in melda if self._calls(b, lambda c, t, x: c.target() == "utils::merge_arrays")])
